@@ -213,6 +213,13 @@ def run_kani(scratch, crate, obs, jobs, playback=False, cbmc_args=None, prebuild
             zs.add(z)
     for z in sorted(zs):
         cmd += ["-Z", z]
+    for ob in obs:
+        for a in ob.get("kani_args") or []:
+            if a not in cmd:
+                cmd.append(a)
+    for a in os.environ.get("VERIF_KANI_ARGS", "").split():
+        if a not in cmd:
+            cmd.append(a)
     if playback:
         cmd += ["-Z", "concrete-playback", "--concrete-playback=print"]
     else:
@@ -392,6 +399,15 @@ def check_property(prop, tier, only, keep, jobs):
         return 2
     kani_obs = [o for o in obs if o["backend"] == "kani"]
     verus_obs = [o for o in obs if o["backend"] == "verus"]
+    # memory-hungry obligations declare rss_gb: raise the watchdog limit for this run and lower the parallelism so that
+    # the box (62 GB, no swap) is not exhausted
+    global RSS_LIMIT_KB
+    jobs_normal = jobs
+    need_gb = max([0] + [o.get("rss_gb", 0) or 0 for o in kani_obs])
+    if need_gb * 1024 * 1024 > RSS_LIMIT_KB:
+        RSS_LIMIT_KB = need_gb * 1024 * 1024
+        jobs = max(1, min(jobs, 52 // need_gb))
+        log("[%s] memory-hungry obligations selected: RSS limit %d GB per cbmc, run %d at a time after the others" % (prop, need_gb, jobs))
     findings = load_findings()
     results = {}      # ob id -> dict
     violations = []   # (ob, chk, block)
@@ -426,11 +442,33 @@ def check_property(prop, tier, only, keep, jobs):
             group = [o for o in kani_obs + canaries if o["crate"] in c]
             log("[%s] kani: crates %s, %d harnesses" % (prop, ",".join(c), len(group)))
             try:
-                plain = [o for o in group if not o.get("unwindset")]
+                plain = [o for o in group if not o.get("unwindset") and not o.get("rss_gb")]
+                hungry = [o for o in group if not o.get("unwindset") and o.get("rss_gb")]
                 special = [o for o in group if o.get("unwindset")]
                 data, stdout = None, ""
+
+                def merge(d2):
+                    nonlocal data
+                    if d2 is None:
+                        return
+                    if data is None:
+                        data = d2
+                        return
+                    for key in ("property_details", "cbmc", "error_details", "harness_metadata"):
+                        data.setdefault(key, []).extend(d2.get(key, []))
+                    data.setdefault("verification_results", {}).setdefault("results", []).extend(
+                        d2.get("verification_results", {}).get("results", []))
+
                 if plain:
-                    data, stdout, wall = run_kani(scratch, c, plain, jobs)
+                    data, stdout, wall = run_kani(scratch, c, plain, jobs_normal)
+                if hungry and (data is not None or not plain):
+                    # memory-hungry harnesses run in their own invocation with reduced parallelism
+                    d2, s2, _ = run_kani(scratch, c, hungry, jobs)
+                    stdout += s2
+                    merge(d2)
+                    if d2 is None and data is not None:
+                        for o in hungry:
+                            undecided.append((o["id"], "memory-hungry run produced no result"))
                 if special and (data is not None or not plain):
                     # two-phase: generate the goto binaries (5 s per harness), look the loop ids up, run with --unwindset
                     run_kani(scratch, c, special, jobs, prebuild=True)
@@ -438,13 +476,7 @@ def check_property(prop, tier, only, keep, jobs):
                     d2, s2, _ = run_kani(scratch, c, special, jobs, cbmc_args=(["--unwindset", us] if us else None))
                     stdout += s2
                     if d2 is not None:
-                        if data is None:
-                            data = d2
-                        else:
-                            for key in ("property_details", "cbmc", "error_details", "harness_metadata"):
-                                data.setdefault(key, []).extend(d2.get(key, []))
-                            data.setdefault("verification_results", {}).setdefault("results", []).extend(
-                                d2.get("verification_results", {}).get("results", []))
+                        merge(d2)
                     elif data is not None:
                         for o in special:
                             undecided.append((o["id"], "unwindset run produced no result"))
